@@ -100,6 +100,12 @@ def _data_variants(a):
     }
     if not nan.any() and np.all(a == np.round(a)):
         out["int64"] = lambda: a.astype(np.int64)
+        if a.size and a.min() >= 0 and a.max() <= 255:
+            out["uint8"] = lambda: a.astype(np.uint8)  # narrow dtypes: sums and differences must not wrap
+        if a.size and a.min() >= -128 and a.max() <= 127:
+            out["int8"] = lambda: a.astype(np.int8)
+        if a.size and abs(a).max() <= 32767:
+            out["int16"] = lambda: a.astype(np.int16)
     try:
         import dask.array as da
 
@@ -204,7 +210,7 @@ class CarrierGrid(Case):
     def variants(self):
         import numpy as np
 
-        dv = list(_data_variants(np.array([1.0])).keys()) + ["int64"]
+        dv = list(_data_variants(np.array([1.0])).keys()) + ["int64", "uint8", "int8", "int16"]
         tv = list(_time_variants(np.array([0], dtype="datetime64[ns]")).keys())
         return [("data", n) for n in dict.fromkeys(dv)] + [("time", n) for n in tv]
 
@@ -213,9 +219,24 @@ class CarrierGrid(Case):
         lim = 12 if tier == "quick" else 120
         if len(grid) > lim:
             grid = rng.sample(grid, lim)
+        def scaled(v):
+            # the same series with magnitudes near the limits of the narrow integer dtypes
+            w = dict(v)
+            pat = {"x": [200, 210, 90, 220, 200, 205], "z": [10, 20, 30, 40, 50, 60]}
+            for k_, x in v.items():
+                if k_ in pat and isinstance(x, list) and x:
+                    w[k_] = pat[k_][: len(x)] if len(x) <= 6 else x
+            return w
+
         for values in grid:
             for variant in self.variants():
                 yield ("%s:%s" % variant, "%s:%s" % variant, values, (lambda values=values, variant=variant: self.one(values, variant)))
+        for values in grid:
+            sv = scaled(values)
+            if sv == values:
+                continue
+            for variant in (("data", "uint8"), ("data", "int16"), ("data", "int8"), ("data", "series"), ("data", "list_nan")):
+                yield ("%s:%s" % variant, "%s:%s" % variant, sv, (lambda values=sv, variant=variant: self.one(values, variant)))
 
     def replay_bounded(self, label, values):
         kind, name = label.split(":")
